@@ -35,8 +35,8 @@ def run(ctx):
     quick = ctx.tier == "quick"
     ctx.fingerprint(FILES)
     ctx.translate(["Z3"])
-    ctx.build(ctx.pid, deps=["Model/Z3Model.v"])
-    n = 80 if quick else 800
+    ctx.build("C12_z3", deps=["Model/Z3Model.v"])   # the part's own statements, whatever property id runs it
+    n = 60 if quick else 600
     specs = []
     for i in range(n):
         s = Z.gen_spec(ctx.rng, ["mixed", "dag", "single", "busy"][i % 4])
@@ -91,7 +91,7 @@ def run(ctx):
     ctx.cov["input_distribution"] = dist
     ctx.sample({"stream": "S-z3-soft", "spec": specs[0], "soft_rows": res[0].get("soft")})
     try:
-        mism = ctx.model_stream("S-z3-soft", Z.HEADER, "instance", "obs_soft", soft_cases, shard=60)
+        mism = ctx.model_stream("S-z3-soft", Z.HEADER, "instance", "obs_soft", soft_cases, shard=80)
         for idx, mv in mism[:3]:
             ctx.violation("soft%d" % idx, {"stream": "S-z3-soft", "case": soft_cases[idx][2],
                                             "expected_from_implementation": soft_cases[idx][1], "model": mv,
